@@ -307,7 +307,6 @@ func genSpecial(r *Rand, kind string) *Project {
 	return p
 }
 
-
 // genMacroGraph: a random MACRO/PASTE call graph (2-5 macros, edges at random, cyclic in most
 // cases, cycle length 1-4). Each PASTE edge sits under a randomly chosen container inside the
 // macro body: directly in the macro, under a method, under a response or a Request with an
